@@ -100,8 +100,12 @@ def _verdict_chunk(args):
     mods = TREES[tree]
     rng = random.Random(seed)
     out = dict(cases=0, nontrivial=0, violations=[], samples=[])
-    for imports in rels:
-        arch = build_arch(mods, imports)
+    for listed in rels:
+        arch = build_arch(mods, listed)
+        # the oracle judges the ARCHITECTURE's import relation (property C01): what the built graph holds. For import lists
+        # between unrelated modules that is the list itself; an import from a package node to its own direct sub module cannot
+        # be represented next to the hierarchy edge (single edge per pair) and is not part of the architecture.
+        imports = tuple(sorted(arch_snapshot(arch)[1]))
         for S, O in rule_space(mods, rng, n_rules, max_side):
             if not no_parent_self_import(imports, S + O):
                 continue
@@ -110,7 +114,7 @@ def _verdict_chunk(args):
                 want = doc_verdict(mods, imports, S, verb, imp, exc, O)
                 out["cases"] += 1
                 out["nontrivial"] += bool(imports)
-                inp = dict(tree=tree, imports=[list(p) for p in imports], subjects=S, verb=verb, import_=imp, except_=exc, objects=O)
+                inp = dict(tree=tree, imports=[list(p) for p in listed], subjects=S, verb=verb, import_=imp, except_=exc, objects=O)
                 if len(out["samples"]) < 1 and imports:
                     out["samples"].append(dict(inp, verdict=kind))
                 if kind == "error" or (kind == "pass") != want:
@@ -141,7 +145,7 @@ def _verdict_chunk(args):
                     if kind == "error" or (kind == "pass") != want:
                         if len(out["violations"]) < 3:
                             out["violations"].append(dict(case="verdict-anything", detail=f"real outcome {kind} ({msg}); documented semantics say {'pass' if want else 'fail'}",
-                                                          input=dict(tree=tree, imports=[list(p) for p in imports], subjects=S, verb="should_not", import_=imp, anything=True)))
+                                                          input=dict(tree=tree, imports=[list(p) for p in listed], subjects=S, verb="should_not", import_=imp, anything=True)))
     return out
 
 
@@ -162,9 +166,21 @@ def _chunks(tier, seed, trees):
     for tree in trees:
         mods = TREES[tree]
         rels = import_relations(mods, rng, n_random=(40 if tier == "quick" else 400), exhaustive_upto=(1 if tier == "quick" else 2))
+        # ... and graphs that also contain imports between RELATED modules (a package importing its own sub module and vice versa),
+        # some of them listed twice / after another import with the same importee (order of the import list matters to the builder)
+        rel_pairs = [(a, b) for a in mods for b in mods if a != b and "." in a and (b.startswith(a + ".") or a.startswith(b + "."))]
+        for _ in range(30 if tier == "quick" else 300):
+            base = list(rng.choice(rels[1:])) if len(rels) > 1 else []
+            extra = rng.sample(rel_pairs, min(len(rel_pairs), rng.randint(1, 3)))
+            mixed = base + extra
+            if rng.random() < 0.5 and extra:
+                q = rng.choice([m for m in mods if "." in m])
+                mixed = [(q, extra[0][1])] + mixed + [extra[0]]
+            rng.shuffle(mixed) if rng.random() < 0.5 else None
+            rels.append(tuple((a, b) for a, b in mixed if a != b))
         rng.shuffle(rels)
         if tier == "quick":
-            rels = rels[:90]
+            rels = rels[:120]
         size = max(1, len(rels) // 16)
         for i in range(0, len(rels), size):
             jobs.append((tree, rels[i:i + size], rng.randrange(1 << 30)))
@@ -187,9 +203,10 @@ def bounded_reports(tier, seed):
 def rerun_verdict(inp):
     """Replay of a recorded case: real outcome vs documented verdict (and report when the rule fails)."""
     mods = TREES[inp["tree"]]
-    imports = [tuple(p) for p in inp["imports"]]
+    listed = [tuple(p) for p in inp["imports"]]
     S = [tuple(x) for x in inp["subjects"]]
-    arch = build_arch(mods, imports)
+    arch = build_arch(mods, listed)
+    imports = sorted(arch_snapshot(arch)[1])
     if inp.get("anything"):
         kind, msg = outcome(make_rule(S, "should_not", inp["import_"], False, None, anything=True), arch)
         I = set(imports) if inp["import_"] else {(b, a) for a, b in imports}
@@ -271,6 +288,15 @@ def _algebra_chunk(args):
                 y = _kind(make_rule(s1, "should_not", imp, True, s1), arch)
                 if x != y:
                     bad("alias", f"anything={x} except-itself={y}", dict(base, law="alias", import_=imp, S=s1))
+            # (d') alias law for a batch of pairwise unrelated subjects (prefix-named siblings included)
+            for Sb, _ in rule_space(mods, rng, 1, max_side=3):
+                if len(Sb) < 2:
+                    continue
+                for imp in (True, False):
+                    x = _kind(make_rule(Sb, "should_not", imp, False, None, anything=True), arch)
+                    y = _kind(make_rule(Sb, "should_not", imp, True, Sb), arch)
+                    if x != y:
+                        bad("alias", f"batch {Sb}: anything={x} except-themselves={y}", dict(base, law="alias", import_=imp, S=Sb))
             # (e) monotonicity: one more import between unrelated modules
             extra = rng.choice(all_pairs(mods))
             if extra not in imports:
@@ -344,7 +370,7 @@ def _regexes(mods, rng):
     names = [m for m in mods if "." in m]
     esc = lambda s: s.replace(".", r"\.")
     a, b = rng.sample(names, 2)
-    return [esc(a) + "$", esc(a), "(" + esc(a) + "|" + esc(b) + ")$", r".*x$", r"r\.[ab]$", r"r\.a.*", r".*\.[xy]$", r"r\.zzz"]
+    return [esc(a) + "$", esc(a), a, "r", "(" + esc(a) + "|" + esc(b) + ")$", r".*x$", r"r\.[ab]$", r"r\.a.*", r".*\.[xy]$", r"r\.zzz"]
 
 
 def _expand(mods, rx):
